@@ -46,7 +46,34 @@ def classify_parse_failure(text, message):
   if '.<locals>.' in text and 'dynamic_registration' in text:
     # under dynamic registration a configurable registered from Python that is a local function / class is printed by module and __qualname__
     return 'local-object-printed-by-qualname-under-dynamic-registration'
+  m = re.search(r"Couldn't resolve selector ([\w.]+);", message)
+  if m and 'dynamic_registration' in text and _names_unreachable_python_registered_object(m.group(1)):
+    return 'local-object-printed-by-qualname-under-dynamic-registration'
   return None
+
+
+def _names_unreachable_python_registered_object(selector):
+  """True iff `selector` ends in the __qualname__ of a configurable registered from Python (no import source) that cannot be reached as
+  module.__qualname__ (a local object, or one renamed after definition): the same recorded finding without '<locals>' in the text."""
+  import importlib
+  from gin import config as gc
+  for entry in list(gc._REGISTRY._selector_map.values()):
+    if entry.import_source is not None:
+      continue
+    w = entry.wrapped
+    qn, mod = getattr(w, '__qualname__', None), getattr(w, '__module__', None)
+    if not qn or not mod or not selector.endswith(qn):
+      continue
+    try:
+      o = importlib.import_module(mod)
+      for part in qn.split('.'):
+        o = getattr(o, part)
+      reachable = o is w
+    except Exception:  # pylint: disable=broad-except
+      reachable = False
+    if not reachable:
+      return True
+  return False
 
 
 def merge(ctx, rep, prefix):
